@@ -802,6 +802,10 @@ def deserialize_structure_internal(
     if issubclass(cls, Versioned):
         if not isinstance(the_dict, dict) or "version" not in the_dict:
             raise TypeError("Expected a dictionary with a 'version' value")
+        if isinstance(the_dict["version"], int) and the_dict["version"] < 1:
+            raise ValueError(
+                f"version: Got {the_dict['version']}; Expected a positive integer (versions start at 1)"
+            )
         if getattr(cls, VERSIONS_MAPPING, None):
             versions_mapping = getattr(cls, VERSIONS_MAPPING)
             input_dict = convert_dict(the_dict, versions_mapping)
